@@ -55,7 +55,11 @@ static inline vr32 vr_const32(uint32_t b){ return b; }
 /* + - * are always free terms: nothing in the checked code converts a sum or product back to an integer, and keeping them
  * exact for small integers costs two symbolic case splits per operation in every re-executed segment */
 static inline vr64 vr_fadd64(vr64 a, vr64 b){ return UF_MK(UF_OPQ, __CPROVER_uninterpreted_uf_add(a, b)); }
-static inline vr64 vr_fsub64(vr64 a, vr64 b){ return UF_MK(UF_OPQ, __CPROVER_uninterpreted_uf_sub(a, b)); }
+/* subtraction stays exact on small integers: the trial step lengths alpha = x / (x - x_F) of the harness data must remain the
+ * concrete rationals that make the number of trial steps a constant of the instance */
+static inline vr64 vr_fsub64(vr64 a, vr64 b){
+  if (uf_is_int(a) && uf_is_int(b)) { int64_t r = uf_ival(a) - uf_ival(b); if (uf_smallint(r)) return uf_int(r); }
+  return UF_MK(UF_OPQ, __CPROVER_uninterpreted_uf_sub(a, b)); }
 static inline vr64 vr_fmul64(vr64 a, vr64 b){ return UF_MK(UF_OPQ, __CPROVER_uninterpreted_uf_mul(a, b)); }
 static inline vr64 vr_fdiv64(vr64 a, vr64 b){
   if (uf_is_int(a) && uf_is_int(b) && uf_ival(b) > 0 && uf_ival(b) < 32768 && uf_ival(a) > -32768 && uf_ival(a) < 32768) {
